@@ -283,7 +283,14 @@ def compare(rec, ans):
         if ans["reds"][: len(rec["reds"])] != rec["reds"]:
             return "reductions before the exception are not a prefix of the model's"
         return None
-    return "impl returned None without calling error()"
+    # the automaton accepted and the semantic action of the start production returned None (CellParser:
+    # `cell -> number_phrase KEYWORD` returns None unless the keyword is LIKE): MontePy turns the None into a
+    # ParsingError, the LR machine has accepted
+    if ans["r"] != "accept":
+        return "impl reached the accept action (tree None, error() never called), model " + ans["r"]
+    if ans["reds"] != rec["reds"]:
+        return "reduction sequences differ"
+    return None
 
 
 def run_unit(chk, items, tables):
@@ -330,7 +337,7 @@ def run_unit(chk, items, tables):
     stats = {}
     bad = []
     for wi, r, ki in flat:
-        st = stats.setdefault(r["p"], {"runs": 0, "accepted": 0, "rejected": 0, "raised": 0, "malformed": 0, "prods": set(), "streams": set()})
+        st = stats.setdefault(r["p"], {"runs": 0, "accepted": 0, "rejected": 0, "raised": 0, "none": 0, "malformed": 0, "prods": set(), "streams": set()})
         st["runs"] += 1
         st["streams"].add(ki)
         st["prods"].update(r["reds"][: r["err"]["nreds"]] if r["err"] else r["reds"])
@@ -340,6 +347,9 @@ def run_unit(chk, items, tables):
             st["rejected"] += 1
         elif r["result"] == "accept":
             st["accepted"] += 1
+        elif r["result"] == "none":
+            st["accepted"] += 1
+            st["none"] += 1
         else:
             st["raised"] += 1
         chk.traces_validated += 1
@@ -372,9 +382,11 @@ def run_unit(chk, items, tables):
             "accepted": st["accepted"],
             "rejected": st["rejected"],
             "raised_in_semantic_action": st["raised"],
+            "accepted_but_action_returned_none": st["none"],
             "malformed_streams": st["malformed"],
             "productions_exercised": len(st["prods"]),
             "productions": cov.get("productions"),
+            "productions_in_table": cov.get("productions_in_table"),
             "action_cells_exercised": cov.get("cells_hit"),
             "action_cells": cov.get("action_cells"),
         }
